@@ -40,6 +40,17 @@ type Call struct {
 // Done is closed when the call has returned
 func (c *Call) Done() <-chan struct{} { return c.done }
 
+// HasReturned tells whether the call has returned; it synchronises with the handler goroutine (the fields
+// Resp, RbResp, Err, ReturnAt may be read after it said yes)
+func (c *Call) HasReturned() bool {
+	select {
+	case <-c.done:
+		return true
+	default:
+		return false
+	}
+}
+
 // Name is the task name of the call
 func (c *Call) Name() string { return fmt.Sprintf("handler:%s#%d", c.Kind, c.N) }
 
@@ -289,7 +300,7 @@ func (e *Exec) handleCrash() {
 		}
 	}
 	for _, c := range e.Calls {
-		if !c.Returned {
+		if !c.HasReturned() {
 			c.Open = true
 		}
 	}
@@ -467,12 +478,12 @@ func (e *Exec) latestLiveChange() uint64 {
 	rolled := map[uint64]bool{}
 	var best uint64
 	for _, c := range e.Calls {
-		if c.Returned && c.Err == nil && c.Kind == "rollback" {
+		if c.HasReturned() && c.Err == nil && c.Kind == "rollback" {
 			rolled[c.RbIndex] = true
 		}
 	}
 	for _, c := range e.Calls {
-		if c.Kind != "set" || !c.Returned || c.Err != nil {
+		if c.Kind != "set" || !c.HasReturned() || c.Err != nil {
 			continue
 		}
 		for _, x := range c.Resp.GetExtension() {
